@@ -21,6 +21,7 @@
 #include <fstream>
 #include <iostream>
 #include <limits>
+#include <mutex>
 #include <memory>
 #include <sstream>
 #include <stdexcept>
@@ -51,6 +52,9 @@ namespace bxdecay0 {
     epsabs                       = 0.0;
     int count                    = 0;
     int status                   = 0;
+    // The GSL error handler is process-wide: serialize the save/disable ... restore sequence
+    static std::mutex gsl_eh_mutex;
+    std::lock_guard<std::mutex> gsl_eh_lock(gsl_eh_mutex);
     gsl_error_handler_t * gsl_eh = gsl_set_error_handler_off();
     while (true) {
       status = gsl_integration_qng(&F, min_, max_, epsabs, epsrel, &result, &abserr, &neval);
